@@ -68,8 +68,10 @@ def build_config(c, kind, rng):
         g.prepop = list(g.lowers)
         g.watch = insts
         g.has_phys = "phys" in kinds
-    elif kind == "ovl_sub":
-        c.base("mem")
+    elif kind in ("ovl_sub", "ovl_psub"):
+        # both layers are sub-directories of ONE filesystem instance (ovl_psub: of one directory tree on disk)
+        c.base("phys" if kind == "ovl_psub" else "mem")
+        g.has_phys = kind == "ovl_psub"
         u = c.fs("base", 0)
         g.target = c.fs("ovl", 2, u, vfx.hexs("/up"), u, vfx.hexs("/lo"))
         c.op("createdir", vfx.ps(u, "up"))
